@@ -228,13 +228,13 @@ theorem C15_core_aligned (conv snd0 rcv0 : U32) (ops : List Kcp.Op) :
       Aligned (startO conv snd0 rcv0)) ops
   exact ⟨h.sq, h.sb, h.rb, h.rq⟩
 
-theorem C15_aux_mss_step {o : KcpO} (h : InvMss o.k) (op : Kcp.Op) :
+theorem C15_aux_mss_step {o : KcpO} (hs : Sync o) (ha : Aligned o) (h : InvMss o.k) (op : Kcp.Op) :
     InvMss (stepO o op).k ∧ (stepO o op).gh.lost = o.gh.lost := by
   rw [C15_core_step_erasure]
   cases op with
   | send b => exact ⟨(send_ok o.k b h).2.1, sendO_lost h b⟩
   | recv n => exact ⟨inv_of_view h (recv_view o.k n), recvO_lost o n⟩
-  | input d reg nd now => exact ⟨(input_ok o.k d reg nd now h).2.2.1, inputO_lost o d reg nd now⟩
+  | input d reg nd now => exact ⟨(input_ok o.k d reg nd now h).2.2.1, inputO_lost o hs ha d reg nd now⟩
   | flush full now => exact ⟨(flush_ok o.k full now h).2.2.1, flushO_lost o full now⟩
   | update now => exact ⟨(update_ok o.k now h).2.2.1, updateO_lost o now⟩
   | setMtu m => exact ⟨setMtu_inv o.k m h, rfl⟩
@@ -244,23 +244,27 @@ theorem C15_aux_mss_step {o : KcpO} (h : InvMss o.k) (op : Kcp.Op) :
 
 /-- **Nothing is ever dropped**: in a run from a fresh core no buffer is acquired and then abandoned
 (the `Get()[:n]` panics are unreachable: `Input` checks the length first, `Send` slices at most
-`mss ≤ mtuLimit` bytes by the MTU invariant of C10), so `C15_core_no_leak` holds without exception:
+`mss ≤ mtuLimit` bytes by the MTU invariant of C10; `shrink_buf` pops only acked segments, which have
+given their buffer back — `C15_core_aligned`), so `C15_core_no_leak` holds without exception:
 every buffer acquired and not yet recycled is held by exactly one queue position. -/
 theorem C15_core_no_leak_exact (conv snd0 rcv0 : U32) (ops : List Kcp.Op) (id : Nat) :
     (runO (startO conv snd0 rcv0) ops).gh.lost = [] ∧
     (holds (runO (startO conv snd0 rcv0) ops).gh.log.reverse id = true ↔
       held (runO (startO conv snd0 rcv0) ops) id = 1) := by
-  have key : ∀ (o : KcpO) (ops : List Kcp.Op), InvMss o.k → (runO o ops).gh.lost = o.gh.lost := by
+  have key : ∀ (o : KcpO) (ops : List Kcp.Op), OwnInv o → Aligned o → InvMss o.k → (runO o ops).gh.lost = o.gh.lost := by
     intro o ops
     induction ops generalizing o with
-    | nil => intro _; rfl
+    | nil => intro _ _ _; rfl
     | cons op ops ih =>
-      intro h
-      obtain ⟨h1, h2⟩ := C15_aux_mss_step h op
+      intro hi ha h
+      obtain ⟨h1, h2⟩ := C15_aux_mss_step hi.sync ha h op
       show (runO (stepO o op) ops).gh.lost = _
-      rw [ih _ h1, h2]
+      rw [ih _ (C15_aux_inv_step hi op) (C15_aux_al_step hi.sync ha op) h1, h2]
   have h0 : InvMss (startO conv snd0 rcv0).k := inv_of_view (new_inv conv) rfl
-  have hl : (runO (startO conv snd0 rcv0) ops).gh.lost = [] := key _ ops h0
+  have hl : (runO (startO conv snd0 rcv0) ops).gh.lost = [] :=
+    key _ ops (C15_aux_inv_start conv snd0 rcv0)
+      (⟨fun _ h => (by cases h), fun _ h => (by cases h), fun _ h => (by cases h), fun _ h => (by cases h)⟩ :
+        Aligned (startO conv snd0 rcv0)) h0
   refine ⟨hl, ?_, ?_⟩
   · intro hh
     have := C15_core_no_leak conv snd0 rcv0 ops id hh
